@@ -19,7 +19,7 @@ THEOREMS = [
     "C06_roundtrip_multi", "C06_roundtrip_single_partial", "C06_roundtrip_default_format",
     "C06_roundtrip_default_format_plain_partial", "C06_roundtrip_any_options_partial", "C06_roundtrip_multi_any_order",
     "C06_roundtrip_single_any_order_partial", "C06_edges_roundtrip_multi", "C06_wf_satisfiable",
-    "C06_single_urls_refuted", "C06_single_via_prefix_refuted", "C06_placeholder_version_refuted",
+    "C06_former_findings_roundtrip", "C06_single_requirer_named_via_refuted",
     "C06_gen_constants_ok",
 ]
 RULE = ("random dependency graphs (1-7 projects; names with dots/dashes/case, epochs, pre/post/dev/local versions, "
